@@ -46,7 +46,8 @@ SIGNERS = [("str", None), ("bytes", None), ("dict", 0), ("dict", 1)]
 NAMES = ["a", "ab", "abcde", "n|m", "é"]
 VALUES = ["", "v", "a|b", b"\xff\xfe\x00", b"0123456789" * 4, "éĀ",
           b"abc\xd7\x6d\xf8",     # base64 'YWJj1234': digits adjacent to the timestamp
-          b"ab>"]                 # base64 'YWI+': '+' adjacent to the timestamp
+          b"ab>",                 # base64 'YWI+': '+' adjacent to the timestamp
+          b"\xd7\x6d\xf8"]         # base64 '1234': a v1 value that looks like "version 1234|"
 T0_QUICK = [1, 1300000000]
 T0_THOROUGH = [1, 9, 1111, 1300000000, 1311111111, 2 ** 31]
 AGES_QUICK = [31, 1]
@@ -60,9 +61,10 @@ PREFIXES = ["2|1:0|", "2|1:0|10:1300000000|", "2|1:0|10:1300000000|1:a|",
 
 # one defect = one signature: both directions of a v1 boundary shift are the same
 # missing delimiter in the v1 signature input
-SIG_FAMILY = {"shift:name->value": "shift:name<->value", "shift:value->name": "shift:name<->value",
-              "shift:value->timestamp": "shift:value<->timestamp",
-              "shift:timestamp->value": "shift:value<->timestamp"}
+SIG_FAMILY = {"shift:name->value": "shift:name<->value", "shift:value->name": "shift:name<->value"}
+for _c in ("non-numeric", "leading-zero", "future", "expired", "plausible"):
+    for _d in ("shift:value->timestamp", "shift:timestamp->value"):
+        SIG_FAMILY["%s:%s-timestamp" % (_d, _c)] = "shift:value<->timestamp:%s-timestamp" % _c
 
 LENGTH_RE = re.compile(rb"\A([0-9]{1,9}):")
 VERSION_RE = re.compile(rb"\A([1-9][0-9]*)\|")      # format description: decimal, no leading zero
@@ -358,7 +360,23 @@ def fam_shift_v1(R, s, tier):
     def go(fam, name, data, k):
         for age in ages:
             for now in nows:
-                R.case(fam, s.sid, name, data, now, None, age=age, ver="v1",
+                f = fam
+                if fam in ("shift:value->timestamp", "shift:timestamp->value"):
+                    # name what kind of timestamp the re-split value carries: the reader's
+                    # sanity checks are meant for three of these classes, the fourth is
+                    # indistinguishable from a genuine timestamp
+                    ts2 = data.split(b"|")[1]
+                    if not ts2.isdigit():
+                        f += ":non-numeric-timestamp"
+                    elif ts2.startswith(b"0"):
+                        f += ":leading-zero-timestamp"
+                    elif int(ts2) > now + 31 * 86400:
+                        f += ":future-timestamp"
+                    elif int(ts2) < now - age * 86400:
+                        f += ":expired-timestamp"
+                    else:
+                        f += ":plausible-timestamp"
+                R.case(f, s.sid, name, data, now, None, age=age, ver="v1",
                        detail="%d byte(s) moved across the field boundary; signature untouched" % k,
                        nt=(s.idx % 40, k, age))
         R.case(fam, "dict", name, data, s.t0, None, ver="v1", detail="read with key dict")
@@ -471,6 +489,18 @@ def fam_trunc(R, s, tier):
         R.case("forged-signature", s.sid, s.name, head + f, s.t0, None, ver=ver,
                detail="signature variant #%d computed without the secret" % i,
                nt=(s.idx % 40, i))
+    if s.version == 2:
+        # a key version no key dict knows, signed with keys anybody can guess
+        for kvs in (b"7", b"-1", b"2", b"00", b"1_0"):
+            head2 = b"|".join([b"2", field(kvs), field(s.ts), field(s.name), field(s.v64), b""])
+            for gi, guess in enumerate((b"", b"None", kvs, b(s.name))):
+                data = head2 + hmac.new(guess, head2, hashlib.sha256).hexdigest().encode()
+                for sid in ("dict", "dict_empty", "dict_rotated"):
+                    if kvs == b"2" and sid == "dict_rotated":
+                        continue
+                    R.case("forged-key-version", sid, s.name, data, s.t0, None, ver=ver,
+                           detail="key version %r unknown to the key dict, signed with guessable key #%d"
+                           % (kvs, gi), nt=(s.idx % 40, kvs, gi))
 
 
 def fam_swap(R, a, b_, tier):
@@ -555,8 +585,9 @@ class C23(Check):
     level = "exploration"
     design_ref = "DESIGN.md §2 C23"
     rule = ("seeds = every real create_signed_value output over secrets {str, bytes, {0:..,1:..} "
-            "with key_version 0/1} x names {a, ab, abcde, n|m, é} x 8 values (empty, '|', "
-            "high bytes, 40 bytes, non-ASCII str, base64 ending in digits / '+') x versions {1,2} x "
+            "with key_version 0/1} x names {a, ab, abcde, n|m, é} x 9 values (empty, '|', "
+            "high bytes, 40 bytes, non-ASCII str, base64 ending in digits / '+', base64 all digits) x "
+            "versions {1,2} x "
             "creation times {1, 1300000000} (T: +4); per seed: round trip at 5 instants inside and "
             "3 outside the age window for max_age_days {31,1} (T: +0.5, 40000) x min_version {1,2} "
             "x bytes/str input; 10 wrong names; 10 other secrets / key dicts; every single-byte "
